@@ -86,4 +86,30 @@ def expectedWorkerSkeleton : List String :=
    "}",
    "}"]
 
+/-- the goroutine / channel lines of `StreamJoin.Run` and of `OuterJoin.Run` (identical), which
+`Octo/Model/JoinProto.lean` (with `fixed = true`) mirrors -/
+def expectedJoinSkeleton : List String :=
+  ["defer cancelSources",                 -- the sources' context is cancelled when Run returns (State.cancelled)
+   "func send{",
+   "select{",
+   "case send messages",                  -- pSend
+   "case recv sourcesCtx.Done()",         -- pAbort
+   "go{",                                 -- left producer: records, watermarks, a final error: all through `send`
+   "call send leftMessages",
+   "call send leftMessages",
+   "call send leftMessages",
+   "close leftMessages",                  -- pClose L
+   "go{",                                 -- right producer
+   "call send rightMessages",
+   "call send rightMessages",
+   "call send rightMessages",
+   "close rightMessages",                 -- pClose R
+   "label receiveLoop",
+   "select{",                             -- CPc.both
+   "case recv leftMessages",              -- cRecv L / cSeeClosed L
+   "break receiveLoop",
+   "case recv rightMessages",             -- cRecv R / cSeeClosed R
+   "break receiveLoop",
+   "for-range-chan openChannel{"]         -- CPc.only: cRecv / cSeeClosed on the remaining side
+
 end Octo.JsonPipe
